@@ -182,6 +182,10 @@ def run(ctx):
     stats = [r for r in recs if r["kind"] == "stats"]
     strtab = [(r["hex"], int(r["h"])) for r in recs if r["kind"] == "strhash"]
     n = len(pool)
+    if stats and stats[0].get("aborted"):
+        for l in laws:
+            ctx.finding("law:%s" % l["law"], "%s: %s" % (l["law"], l["detail"]), {"law": l["law"], "detail": l["detail"]})
+        return ctx.finish(LEVEL, {"evaluations": len(recs), "distinct_nontrivial": 0, "explanation": "the harness was aborted by a host panic"})
     if not stats or n == 0 or len(rows) != n:
         ctx.broken("harness:c11", "harness output incomplete (pool %d, rows %d)" % (n, len(rows)))
         return ctx.finish(LEVEL, {"evaluations": 0, "distinct_nontrivial": 0})
